@@ -116,7 +116,8 @@ def build(rng, *, cluster_bits: int, size: int, views: list[View], version: int 
           far_base: int = 0, far_frac: float = 0.0, l1_extra: int = 0, drop_empty_l2: bool = True,
           snapshots_meta: list[dict] | None = None, copied_random: bool = True, level: int = 6,
           tuned_frac: float = 0.3, compat: int = 0, autoclear: int = 0, incompat_extra: int = 0,
-          refcount_order: int = 4, crypt_method: int = 0, compression_type: int = 0, pack_compressed: bool = True):
+          refcount_order: int = 4, crypt_method: int = 0, compression_type: int = 0, pack_compressed: bool = True,
+          rand_info: bool = True):
     """-> (SparseFile image, SparseFile|None data_file, meta). views[0] is the active image, the rest snapshots."""
     cs = 1 << cluster_bits
     spc = cs // SECTOR
@@ -282,6 +283,13 @@ def build(rng, *, cluster_bits: int, size: int, views: list[View], version: int 
         backing_off = hl + len(ext) + rng.choice([0, 0, 8, 16])
     hdr = struct.pack(">IIQIIQIIQQIIQ", MAGIC, version, backing_off, len(backing_name or b""), cluster_bits, size, crypt_method,
                       l1_info[0][1], l1_info[0][0], lay[("refcount",)], 1, len(views) - 1, snaps_off)
+    if version >= 3 and rand_info and not compat and not autoclear and rng.random() < 0.5:
+        # feature bits a reader may ignore: compatible (lazy refcounts, unknown ones) and autoclear; and the dirty bit
+        # (refcounts possibly stale - irrelevant for reading)
+        compat = rng.choice([1, 1, rng.getrandbits(8), rng.getrandbits(64)])
+        autoclear = rng.choice([0, 1, 2, 3, rng.getrandbits(64)])
+        if rng.random() < 0.3:
+            incompat |= 1
     if version >= 3:
         hdr += struct.pack(">QQQII", incompat, compat, autoclear, refcount_order, hl)
         if hl > 104:
